@@ -309,6 +309,11 @@ func TestC06(t *testing.T) {
 				}
 			}
 			fail := func(msg string) {
+				var tags []string
+				for _, bd := range res.Dump.Buckets {
+					tags = append(tags, fmt.Sprintf("%s:%v", bd.Key, bd.Tag))
+				}
+				msg += fmt.Sprintf(" [tags after restart %v; WAL files %v]", tags, res.Dump.WALFiles)
 				hx.SaveReplay("C06", map[string]interface{}{"history": h, "mutation": m, "failure": msg, "wal_hex": fmt.Sprintf("%x", mut)})
 				t.Fatalf("%s\n%s\nhistory: %s", msg, desc, histJSON(h))
 			}
@@ -331,6 +336,11 @@ func TestC06(t *testing.T) {
 					// intact, committed, precedes the damage: must be applied
 					for _, w := range mine {
 						if !present[w.tag] && !overwrittenLater(h, rows, w, damaged, present) {
+							if fo := forgedCheckpointAt(orig, mut, tgs); fo >= 0 && tg.end <= fo && hx.KFOpen("KF-06g") {
+								rec.Exclude("KF-06g")
+								rec.KF("KF-06g", "a transaction-info record damaged into 'CHECKPOINT COMMITCOMPLETE' makes replay discard the intact transactions before it")
+								goto nextTG
+							}
 							if dup && movedAside && hx.KFOpen("KF-06d") {
 								rec.Exclude("KF-06d")
 								rec.KF("KF-06d", "a WAL containing the same transaction group twice is moved aside and nothing is replayed")
@@ -350,6 +360,30 @@ func TestC06(t *testing.T) {
 		rec.Flush()
 	})
 	rec.Flush()
+}
+
+// forgedCheckpointAt: the signature of KF-06g. Transaction-info records (11 bytes: id 1, TGID,
+// destination, status) carry no checksum; if the damage turns one of the original log's
+// transaction-info records into "destination CHECKPOINT, status COMMITCOMPLETE" (a single bit of
+// the destination byte of a WAL commit record is enough), replay believes that everything up to
+// that TGID is already in the primary files. Returns the offset of the first such record, or -1.
+// Only length-preserving damage is considered (the record positions of the original still hold).
+func forgedCheckpointAt(orig, mut []byte, tgs []tgRange) int64 {
+	if len(orig) != len(mut) {
+		return -1
+	}
+	for _, tg := range tgs {
+		for _, off := range []int64{tg.start, tg.end - 11} {
+			if off < 0 || off+11 > int64(len(mut)) {
+				continue
+			}
+			o, m := orig[off:off+11], mut[off:off+11]
+			if m[0] == 1 && m[9] == 1 && m[10] == 2 && !(o[9] == 1 && o[10] == 2) {
+				return off
+			}
+		}
+	}
+	return -1
 }
 
 // overwrittenLater: w went to a fixed-length interval that a later, undamaged transaction of the
